@@ -16,7 +16,7 @@ use std::collections::BTreeMap;
 #[derive(Clone, Copy, Debug, PartialEq, Eq)]
 pub enum Mention { Direct, Compressed, Free }
 #[derive(Clone, Debug)]
-pub struct SecPlan { stream_format: bool, mentions: Vec<(u32, Mention)>, split: bool, filter: u8, new_root: bool, grow: u32 }
+pub struct SecPlan { stream_format: bool, mentions: Vec<(u32, Mention)>, split: bool, filter: u8, new_root: bool, grow: u32, keep_gen_on_free: bool }
 #[derive(Clone, Debug)]
 pub struct Plan { n_objs: u32, sections: Vec<SecPlan> }
 
@@ -63,7 +63,10 @@ pub fn build(plan: &Plan) -> Built {
             };
             match (m, cur) {
                 (Mention::Free, State::Value { gen, .. }) if n > 2 => {
-                    state.insert(n, State::Free { gen: gen + 1 }); free_changed = true;
+                    // writers differ on the generation of a free entry (most add one; some, e.g. for objects that lived in an
+                    // object stream, write the old generation): either way the object is free now
+                    state.insert(n, State::Free { gen: if sec.keep_gen_on_free { gen } else { gen + 1 } }); free_changed = true;
+                    if sec.keep_gen_on_free { labels.push("free-entry-keeps-generation".into()); }
                     hist.entry(n).or_default().push((m, sec.stream_format));
                 }
                 (Mention::Free, State::Undefined) if si == 0 && n > 2 => {
@@ -157,7 +160,7 @@ pub fn gen_plan(s: &mut Src, max_objs: u32, max_updates: u32) -> Plan {
         }
         // random order inside the section
         for i in (1..mentions.len()).rev() { let j = s.draw(i as u32 + 1) as usize; mentions.swap(i, j); }
-        sections.push(SecPlan { stream_format, mentions, split: s.draw(3) == 0, filter: s.draw(3) as u8, new_root: s.draw(6) == 0, grow: if s.draw(4) == 0 { 1 + s.draw(3) } else { 0 } });
+        sections.push(SecPlan { stream_format, mentions, split: s.draw(3) == 0, filter: s.draw(3) as u8, new_root: s.draw(6) == 0, grow: if s.draw(4) == 0 { 1 + s.draw(3) } else { 0 }, keep_gen_on_free: s.draw(3) == 0 });
     }
     Plan { n_objs, sections }
 }
@@ -238,8 +241,10 @@ fn exhaustive(run: &Run, n_sections: usize) {
     // 2 tracked objects (3 and 4) x n sections x {absent, direct, compressed, free} x 2 formats
     let opts = [None, Some(Mention::Direct), Some(Mention::Compressed), Some(Mention::Free)];
     let per_sec = 2 * 4 * 4; // format x obj3 x obj4
-    let total = (per_sec as u64).pow(n_sections as u32);
-    par_for(total, |mut code| {
+    let total = (per_sec as u64).pow(n_sections as u32) * (1 << n_sections);
+    par_for(total, |code| {
+        let code_keep = code % (1 << n_sections);
+        let mut code = code >> n_sections;
         let mut sections = Vec::new();
         for _ in 0..n_sections {
             let c = code % per_sec as u64; code /= per_sec as u64;
@@ -248,7 +253,7 @@ fn exhaustive(run: &Run, n_sections: usize) {
             let mut mentions = Vec::new();
             if let Some(m) = a { mentions.push((3, m)); }
             if let Some(m) = b { mentions.push((4, m)); }
-            sections.push(SecPlan { stream_format, mentions, split: false, filter: 0, new_root: false, grow: 0 });
+            sections.push(SecPlan { stream_format, mentions, split: false, filter: 0, new_root: false, grow: 0, keep_gen_on_free: (code_keep >> sections.len()) & 1 == 1 });
         }
         let plan = Plan { n_objs: 4, sections };
         // well-formedness: skip plans whose mentions would be dropped by build (compressed in a table section)
